@@ -23,7 +23,7 @@ for d in sorted(glob.glob(os.path.join(VERIF, 'seeded', '*', 'meta.json'))):
 n = len(rows)
 txt = """### 8.7 Independent seeded changes (`seeded/`, `tools/seed_eval.py`, `bin/selftest seeded`)
 
-%d changes were written in seven rounds by fresh sub-agents that saw only the
+%d changes were written in eight rounds by fresh sub-agents that saw only the
 text of one property and a scratch worktree (nothing from `/verif`; from round 2
 on they were also given a list of the *ideas* already used, so that they would
 look elsewhere; round 4 asked for cooperating edits in two files and at least
